@@ -26,7 +26,7 @@ if echo "$files" | grep -q 'multicast\|net/'; then
   suite_out="$suite_out
 $(timeout 600 go test -vet=off -count=1 -timeout 8m ./multicast/... ./net/... 2>&1)"
 fi
-suite_fail=$(echo "$suite_out" | grep -- '--- FAIL' | grep -v 'TestUDPPeerIPv6_Addresses\|TestCloseFramePayloadCodec\|TestMaxMsgSizeAfterHandshake\|TestRead \|TestMono\|TestClientReconnectOnFailedRead' | head -5)
+suite_fail=$(echo "$suite_out" | grep -- '--- FAIL' | grep -v 'TestUDPPeerIPv6_Addresses\|TestCloseFramePayloadCodec\|TestMaxMsgSizeAfterHandshake\|TestRead \|TestMono\|TestClientReconnectOnFailedRead\|TestTimerScheduleRepeatingAndCancel' | head -5)
 cp "$src/demo_test.go" "$place/zz_seed_demo_test.go"
 demo_with=$(timeout 300 go test -vet=off -count=1 -timeout 4m -run "$(grep -o 'func Test[A-Za-z0-9_]*' "$src/demo_test.go" | sed 's/func //' | paste -sd'|')" "./$place" 2>&1 | tail -3)
 git stash -q -- $files 2>/dev/null || git checkout -q -- $files
